@@ -291,14 +291,16 @@ theorem inv_setLen {s : St} (I : Inv s) (n : Nat) : Inv (s.setLen n) := by
       · rename_i h; exact inv_shrink I h
       · exact I
 
-theorem inv_putIdxArr {s : St} (I : Inv s) {i : Nat} (hi : i < s.len) (x : Val) (ok : Bool) :
+theorem inv_putIdxArr {s : St} (I : Inv s) (i : Nat) (x : Val) (ok : Bool) :
     Inv (s.putIdxArr i x ok) := by
   unfold St.putIdxArr
+  by_cases hi : s.len ≤ i
+  · simp only [hi, if_true]; exact I
+  simp only [hi, if_false]
   cases hc : s.cacheGet i with
   | none =>
     simp only [St.detachOpt]
-    have : ¬ s.len ≤ i := by omega
-    simp only [this, if_false]
+    simp only [hi, if_false]
     cases ok
     · simpa using I
     · simp only [if_true]
@@ -321,16 +323,15 @@ theorem inv_putIdxArr {s : St} (I : Inv s) {i : Nat} (hi : i < s.len) (x : Val) 
       have J := inv_detach_clear I hc
       exact inv_of_same J rfl rfl J.clen_le rfl rfl rfl rfl
 
-theorem inv_putIdx {s : St} (I : Inv s) {i : Nat} (hb : s.fixed = true → i < s.len) (x : Val) (ok : Bool) :
+theorem inv_putIdx {s : St} (I : Inv s) (i : Nat) (x : Val) (ok : Bool) :
     Inv (s.putIdx i x ok) := by
   unfold St.putIdx
   split
-  · rename_i hf; exact inv_putIdxArr I (hb hf) x ok
-  · simp only
-    split
+  · exact inv_putIdxArr I i x ok
+  · split
     · rename_i hle
-      exact inv_putIdxArr (inv_grow I (by omega)) (by rw [grow_len]; omega) x ok
-    · exact inv_putIdxArr I (by omega) x ok
+      exact inv_putIdxArr (inv_grow I (by omega)) i x ok
+    · exact inv_putIdxArr I i x ok
 
 end GojaModel.C13
 
@@ -352,11 +353,12 @@ theorem moveCache_shape (u : St) (c : Option Nat) (i : Nat) :
     (u.moveCache c i).panic = u.panic ∧ (u.moveCache c i).len = u.len ∧ (u.moveCache c i).cur = u.cur ∧
     (u.moveCache c i).nw = u.nw ∧ (u.moveCache c i).clen ≤ max u.clen (i + 1) ∧
     (∀ k, (u.moveCache c i).cacheGet k = if k = i then c else u.cacheGet k) ∧
-    (∀ w, (u.moveCache c i).ws w = if c = some w then .cell u.cur i else u.ws w) := by
+    (∀ w, (u.moveCache c i).ws w = if c = some w then .cell u.cur i else u.ws w) ∧
+    (u.moveCache c i).mem = u.mem := by
   cases c with
   | none =>
     simp only [St.moveCache]
-    refine ⟨?_, ?_, ?_, ?_, ?_, cacheGet_condClear u i, ?_⟩
+    refine ⟨?_, ?_, ?_, ?_, ?_, cacheGet_condClear u i, ?_, ?_⟩
     · unfold St.condClear; split <;> rfl
     · unfold St.condClear; split <;> rfl
     · unfold St.condClear; split <;> rfl
@@ -365,9 +367,10 @@ theorem moveCache_shape (u : St) (c : Option Nat) (i : Nat) :
       · simp only [St.cacheClear]; omega
       · omega
     · intro w; simp only [reduceCtorEq, if_false]; unfold St.condClear; split <;> rfl
+    · unfold St.condClear; split <;> rfl
   | some w0 =>
     simp only [St.moveCache]
-    refine ⟨rfl, rfl, rfl, rfl, Nat.le_refl _, ?_, ?_⟩
+    refine ⟨rfl, rfl, rfl, rfl, Nat.le_refl _, ?_, ?_, rfl⟩
     · intro k; rw [cacheGet_cachePut]; split <;> rfl
     · intro w
       simp only [St.cachePut, updN]
@@ -381,22 +384,29 @@ theorem swap_shape {s : St} {i j : Nat} (hi : i < s.len) (hj : j < s.len) (hcl :
     (s.swap i j).nw = s.nw ∧ (s.swap i j).clen ≤ s.len ∧
     (∀ k, (s.swap i j).cacheGet k = if k = i then s.cacheGet j else if k = j then s.cacheGet i else s.cacheGet k) ∧
     (∀ w, (s.swap i j).ws w = if s.cacheGet j = some w then .cell s.cur i
-                   else if s.cacheGet i = some w then .cell s.cur j else s.ws w) := by
+                   else if s.cacheGet i = some w then .cell s.cur j else s.ws w) ∧
+    (s.swap i j).mem = updMem (updMem s.mem s.cur i (s.slot j)) s.cur j (s.slot i) := by
   have hn : ¬ (s.len ≤ i ∨ s.len ≤ j) := by omega
   simp only [St.swap, hn, if_false]
   generalize hs1 : ({ s with mem := updMem (updMem s.mem s.cur i (s.slot j)) s.cur j (s.slot i) } : St) = s1
   have e1 : s1.panic = s.panic ∧ s1.len = s.len ∧ s1.cur = s.cur ∧ s1.nw = s.nw ∧ s1.clen = s.clen ∧
-      (∀ k, s1.cacheGet k = s.cacheGet k) ∧ s1.ws = s.ws := by
-    subst hs1; exact ⟨rfl, rfl, rfl, rfl, rfl, fun _ => rfl, rfl⟩
-  obtain ⟨p1, l1, c1, n1, cl1, g1, w1⟩ := e1
-  obtain ⟨p2, l2, c2, n2, cl2, g2, w2⟩ := moveCache_shape s1 (s.cacheGet i) j
-  obtain ⟨p3, l3, c3, n3, cl3, g3, w3⟩ := moveCache_shape (s1.moveCache (s.cacheGet i) j) (s.cacheGet j) i
-  refine ⟨by rw [p3, p2, p1], by rw [l3, l2, l1], by rw [c3, c2, c1], by rw [n3, n2, n1], by omega, ?_, ?_⟩
+      (∀ k, s1.cacheGet k = s.cacheGet k) ∧ s1.ws = s.ws ∧
+      s1.mem = updMem (updMem s.mem s.cur i (s.slot j)) s.cur j (s.slot i) := by
+    subst hs1; exact ⟨rfl, rfl, rfl, rfl, rfl, fun _ => rfl, rfl, rfl⟩
+  obtain ⟨p1, l1, c1, n1, cl1, g1, w1, m1⟩ := e1
+  obtain ⟨p2, l2, c2, n2, cl2, g2, w2, m2⟩ := moveCache_shape s1 (s.cacheGet i) j
+  obtain ⟨p3, l3, c3, n3, cl3, g3, w3, m3⟩ := moveCache_shape (s1.moveCache (s.cacheGet i) j) (s.cacheGet j) i
+  refine ⟨by rw [p3, p2, p1], by rw [l3, l2, l1], by rw [c3, c2, c1], by rw [n3, n2, n1], by omega, ?_, ?_, ?_⟩
   · intro k; rw [g3, g2, g1]
   · intro w; rw [w3, w2, w1, c2, c1]
+  · rw [m3, m2, m1]
 
-theorem inv_swap {s : St} (I : Inv s) {i j : Nat} (hi : i < s.len) (hj : j < s.len) : Inv (s.swap i j) := by
-  obtain ⟨hp, hl, hc, hn, hcl, hg, hw⟩ := swap_shape hi hj I.clen_le
+theorem inv_swap {s : St} (I : Inv s) (i j : Nat) : Inv (s.swap i j) := by
+  by_cases hoob : s.len ≤ i ∨ s.len ≤ j
+  · simp only [St.swap, hoob, if_true]; exact I
+  have hi : i < s.len := by omega
+  have hj : j < s.len := by omega
+  obtain ⟨hp, hl, hc, hn, hcl, hg, hw, _⟩ := swap_shape hi hj I.clen_le
   refine ⟨by rw [hp]; exact I.noPanic, by rw [hl]; exact hcl, ?_, ?_, ?_⟩
   · intro w hge
     rw [hn] at hge
@@ -443,21 +453,15 @@ theorem inv_swap {s : St} (I : Inv s) {i j : Nat} (hi : i < s.len) (hj : j < s.l
         have h2 : k ≠ j := by intro e; subst e; exact hcj hck
         simp [h1, h2, hck]
 
-theorem inv_step {s : St} (I : Inv s) (op : Op) (ht : op.tracked = true) (hb : op.inBounds s = true) :
+theorem inv_step {s : St} (I : Inv s) (op : Op) (ht : op.tracked = true) :
     Inv (s.step op) := by
   cases op with
   | get i => exact inv_getIdx I i
-  | set i x =>
-    apply inv_putIdx I
-    intro hf; simp [Op.inBounds, hf] at hb; exact hb
-  | setBad i =>
-    apply inv_putIdx I
-    intro hf; simp [Op.inBounds, hf] at hb; exact hb
+  | set i x => exact inv_putIdx I i x true
+  | setBad i => exact inv_putIdx I i 0 false
   | del i => exact inv_delIdx I i
   | setLen n => exact inv_setLen I n
-  | swap i j =>
-    simp [Op.inBounds] at hb
-    exact inv_swap I hb.1 hb.2
+  | swap i j => exact inv_swap I i j
   | wwrite w x =>
     simp only [St.step]; split
     · exact inv_writeW I w x
@@ -474,10 +478,10 @@ theorem inv_step {s : St} (I : Inv s) (op : Op) (ht : op.tracked = true) (hb : o
       · exact I
   | goRealloc c => simp [Op.tracked] at ht
 
-/-- Histories all of whose operations are tracked and in bounds at the time they are executed. -/
+/-- Histories all of whose operations are tracked (no Go-side re-allocation). -/
 def Admissible : St → List Op → Prop
   | _, [] => True
-  | s, op :: ops => op.tracked = true ∧ op.inBounds s = true ∧ Admissible (s.step op) ops
+  | s, op :: ops => op.tracked = true ∧ Admissible (s.step op) ops
 
 instance decAdmissible : (s : St) → (h : List Op) → Decidable (Admissible s h)
   | _, [] => isTrue trivial
@@ -499,8 +503,8 @@ theorem inv_run {s : St} (I : Inv s) (h : List Op) (ha : Admissible s h) : Inv (
   induction h generalizing s with
   | nil => exact I
   | cons op ops ih =>
-    obtain ⟨ht, hb, hr⟩ := ha
-    exact ih (inv_step I op ht hb) hr
+    obtain ⟨ht, hr⟩ := ha
+    exact ih (inv_step I op ht) hr
 
 theorem inv_init (fixed : Bool) (n c : Nat) (f : Nat → Val) : Inv (St.init fixed n c f) := by
   refine ⟨rfl, Nat.zero_le _, fun _ _ => ⟨0, rfl⟩, ?_, ?_⟩
@@ -545,21 +549,24 @@ theorem shrink_nw (s : St) (size : Nat) : (s.shrink size).nw = s.nw := by
 theorem putIdxArr_ws_notCached {s : St} {w : Nat} (hn : ∀ i, s.cacheGet i ≠ some w) (i : Nat) (x : Val) (ok : Bool) :
     (s.putIdxArr i x ok).ws w = s.ws w := by
   unfold St.putIdxArr
+  by_cases h1 : s.len ≤ i
+  · simp [h1]
   cases hc : s.cacheGet i with
   | none =>
     simp only [St.detachOpt]
-    by_cases h1 : s.len ≤ i <;> cases ok <;> simp [h1]
+    cases ok <;> simp [h1]
   | some c =>
     have hcw : w ≠ c := by intro e; subst e; exact hn i hc
     simp only [St.detachOpt]
-    by_cases h1 : s.len ≤ i <;> cases ok <;> simp [h1, St.detach, St.cacheClear, updN, hcw]
+    cases ok <;> simp [h1, St.detach, St.cacheClear, updN, hcw]
 
 theorem putIdxArr_nw (s : St) (i : Nat) (x : Val) (ok : Bool) : (s.putIdxArr i x ok).nw = s.nw := by
   unfold St.putIdxArr
+  by_cases h1 : s.len ≤ i
+  · simp [h1]
   cases s.cacheGet i <;> simp only [St.detachOpt]
-  · by_cases h1 : s.len ≤ i <;> cases ok <;> simp [h1]
-  · rename_i c
-    by_cases h1 : s.len ≤ i <;> cases ok <;> simp [h1, St.detach, St.cacheClear]
+  · cases ok <;> simp [h1]
+  · cases ok <;> simp [h1, St.detach, St.cacheClear]
 
 theorem swap_ws_notCached {s : St} {w : Nat} (hn : ∀ i, s.cacheGet i ≠ some w) (i j : Nat) :
     (s.swap i j).ws w = s.ws w := by
@@ -567,7 +574,7 @@ theorem swap_ws_notCached {s : St} {w : Nat} (hn : ∀ i, s.cacheGet i ≠ some 
   split
   · rfl
   · simp only
-    rw [(moveCache_shape _ _ _).2.2.2.2.2.2 w, (moveCache_shape _ _ _).2.2.2.2.2.2 w]
+    rw [(moveCache_shape _ _ _).2.2.2.2.2.2.1 w, (moveCache_shape _ _ _).2.2.2.2.2.2.1 w]
     simp [hn i, hn j]
 
 theorem swap_nw (s : St) (i j : Nat) : (s.swap i j).nw = s.nw := by
@@ -681,5 +688,107 @@ theorem step_nw_mono (s : St) (op : Op) : s.nw ≤ (s.step op).nw := by
   | goWrite i x => simp only [St.step]; split <;> exact Nat.le_refl _
   | goAppend x => simp only [St.step]; split <;> (try exact Nat.le_refl _) <;> split <;> exact Nat.le_refl _
   | goRealloc c => simp only [St.step]; split <;> (try exact Nat.le_refl _) <;> split <;> exact Nat.le_refl _
+
+
+/-! ### a sort swap moves every wrapper together with its element -/
+
+theorem swap_preserves_readings {s : St} (I : Inv s) (i j w : Nat) : (s.swap i j).readW w = s.readW w := by
+  by_cases hoob : s.len ≤ i ∨ s.len ≤ j
+  · simp only [St.swap, hoob, if_true]
+  have hi : i < s.len := by omega
+  have hj : j < s.len := by omega
+  obtain ⟨_, _, _, _, _, _, hw, hm⟩ := swap_shape hi hj I.clen_le
+  unfold St.readW
+  rw [hw]
+  by_cases hcj : s.cacheGet j = some w
+  · simp only [hcj, if_true]
+    have := I.cached_attached j w hcj
+    simp only [St.readLoc, this, hm, updMem, St.slot]
+    by_cases hij : i = j <;> simp [hij]
+  · simp only [hcj, if_false]
+    by_cases hci : s.cacheGet i = some w
+    · simp only [hci, if_true]
+      have := I.cached_attached i w hci
+      simp [St.readLoc, this, hm, updMem, St.slot]
+    · simp only [hci, if_false]
+      cases hws : s.ws w with
+      | own v => simp [St.readLoc]
+      | cell b k =>
+        have ⟨hb, hck⟩ := I.attached_cached w b k hws
+        have h1 : k ≠ i := by intro e; subst e; exact hci hck
+        have h2 : k ≠ j := by intro e; subst e; exact hcj hck
+        simp [St.readLoc, hm, updMem, h1, h2]
+
+/-! ### no operation of the (fixed) mechanism reaches a reflect index-out-of-range -/
+
+theorem putIdxArr_panic (s : St) (i : Nat) (x : Val) (ok : Bool) : (s.putIdxArr i x ok).panic = s.panic := by
+  unfold St.putIdxArr
+  by_cases h1 : s.len ≤ i
+  · simp [h1]
+  cases s.cacheGet i <;> simp only [St.detachOpt]
+  · cases ok <;> simp [h1]
+  · cases ok <;> simp [h1, St.detach, St.cacheClear]
+
+theorem grow_panic (s : St) (n : Nat) : (s.grow n).panic = s.panic := by
+  unfold St.grow; split <;> rfl
+
+theorem shrink_panic (s : St) (n : Nat) : (s.shrink n).panic = s.panic := by
+  unfold St.shrink; split <;> rfl
+
+theorem swap_panic (s : St) (i j : Nat) : (s.swap i j).panic = s.panic := by
+  unfold St.swap
+  split
+  · rfl
+  · simp only
+    rw [(moveCache_shape _ _ _).1, (moveCache_shape _ _ _).1]
+
+theorem step_panic (s : St) (op : Op) : (s.step op).panic = s.panic := by
+  cases op with
+  | get i =>
+    simp only [St.step, St.getIdx]
+    split
+    · rfl
+    · split <;> rfl
+  | set i x =>
+    simp only [St.step, St.putIdx]
+    split
+    · exact putIdxArr_panic s i x true
+    · split
+      · rw [putIdxArr_panic, grow_panic]
+      · exact putIdxArr_panic s i x true
+  | setBad i =>
+    simp only [St.step, St.putIdx]
+    split
+    · exact putIdxArr_panic s i 0 false
+    · split
+      · rw [putIdxArr_panic, grow_panic]
+      · exact putIdxArr_panic s i 0 false
+  | del i =>
+    simp only [St.step, St.delIdx]
+    split
+    · rfl
+    · cases s.cacheGet i <;> rfl
+  | setLen n =>
+    simp only [St.step, St.setLen]
+    split
+    · rfl
+    · split
+      · exact grow_panic s n
+      · split
+        · exact shrink_panic s n
+        · rfl
+  | swap i j => exact swap_panic s i j
+  | wwrite w x =>
+    simp only [St.step]; split
+    · unfold St.writeW; split <;> rfl
+    · rfl
+  | goWrite i x => simp only [St.step]; split <;> rfl
+  | goAppend x => simp only [St.step]; split <;> (try rfl) <;> split <;> rfl
+  | goRealloc c => simp only [St.step]; split <;> (try rfl) <;> split <;> rfl
+
+theorem run_panic (s : St) (h : List Op) : (s.run h).panic = s.panic := by
+  induction h generalizing s with
+  | nil => rfl
+  | cons op ops ih => simp only [St.run]; rw [ih, step_panic]
 
 end GojaModel.C13
